@@ -30,6 +30,7 @@ LEVEL_TEXT = (
     "conversions, gap coordinates, every slice, every join of two intervals, reversal, scaling, serialisation, all "
     "pairs for the binary operations) is compared with the gapped string; FeatureMap algebra is compared with a "
     "position-list model on seeded random maps. Exhaustive inside the bound, sampled outside it."
+    " Map composition is also driven with spans that overhang the composed map at the front, the back or both."
 )
 LEVEL_NOTE = "held = held on the executions listed in the evidence; trusted: Python str/list semantics, parse_out_gaps as constructor"
 TECHNIQUE = "runtime monitoring: boundary recorder + executable string/list model, exhaustive small-scope enumeration"
